@@ -561,15 +561,43 @@ func genPortCase(r *common.Rng, o *common.Options, idx int) Case {
 			c.Ports = []uint16{uint16(genPort(r))}
 		}
 		return c
-	case mode == 2: // many separate ports: more than 16 ranges
-		step := r.Range(2, 70)
+	case mode == 2 || mode == 6 || mode == 7: // exactly k maximal runs around the router's 16/17 threshold (or many more)
+		n := common.Pick(r, []int{15, 16, 16, 17, 17, 18, r.Range(10, 40)})
+		width := r.Intn(4) // ports per run - 1
+		step := width + 2 + r.Intn(70)
 		start := genPort(r)
-		n := r.Range(10, 40)
+		if start+n*step > 65535 {
+			start = 65535 - n*step - r.Intn(50)
+		}
 		var parts []string
-		for i := 0; i < n && start+i*step <= 65535; i++ {
-			p := start + i*step
-			c.Items = append(c.Items, GenItem{Text: strconv.Itoa(p), Valid: true, Lo: p, Hi: p})
-			parts = append(parts, strconv.Itoa(p))
+		for i := 0; i < n; i++ {
+			lo := start + i*step
+			hi := lo + width
+			if r.Chance(1, 6) && hi+1 < lo+step-1 {
+				hi++ // uneven runs
+			}
+			it := GenItem{Text: strconv.Itoa(lo), Valid: true, Lo: lo, Hi: hi}
+			if hi > lo {
+				it.Text = fmt.Sprintf("%d-%d", lo, hi)
+			}
+			c.Items = append(c.Items, it)
+		}
+		if r.Chance(1, 3) { // written in another order, or one run written as two adjacent pieces (must merge)
+			j := r.Intn(len(c.Items))
+			c.Items[0], c.Items[j] = c.Items[j], c.Items[0]
+			k := r.Intn(len(c.Items))
+			if it := c.Items[k]; it.Hi-it.Lo >= 2 {
+				a := GenItem{Text: fmt.Sprintf("%d-%d", it.Lo, it.Lo+1), Valid: true, Lo: it.Lo, Hi: it.Lo + 1}
+				b := GenItem{Text: strconv.Itoa(it.Hi), Valid: true, Lo: it.Hi, Hi: it.Hi}
+				if it.Hi-it.Lo > 2 {
+					b = GenItem{Text: fmt.Sprintf("%d-%d", it.Lo+2, it.Hi), Valid: true, Lo: it.Lo + 2, Hi: it.Hi}
+				}
+				c.Items[k] = a
+				c.Items = append(c.Items, b)
+			}
+		}
+		for _, it := range c.Items {
+			parts = append(parts, it.Text)
 		}
 		c.Str = strings.Join(parts, ",")
 		return c
@@ -693,8 +721,10 @@ func portEval(cases []Case, d *common.Driver, o *common.Options, rep *common.Rep
 			switch {
 			case im.rc <= 1:
 				rep.Count("portset:ranges<=1")
-			case im.rc <= 16:
-				rep.Count("portset:ranges<=16")
+			case im.rc <= 15:
+				rep.Count("portset:ranges<=15")
+			case im.rc == 16:
+				rep.Count("portset:ranges=16")
 			case im.rc == 17:
 				rep.Count("portset:ranges=17")
 			default:
